@@ -10,31 +10,31 @@ statements (Model/Mir2C.lean, Model/Mir2COvf.lean); `docSem` & co. are the docum
 instructions (Model/Sem.lean, shared with C02); `printSection`/`printModule` model the item loop and
 the data-section printer (Model/Mir2CSection.lean).
 
-FULL STATEMENTS THAT ARE FALSE ON THE CURRENT CODE (kept visible; see `Model/Mir2CKnown.knownDeviations`):
+STATE AFTER THE REPAIRS IN /repo (fdd8881f uge, 90e55793 section loop, 88b8ee8f ldmov/switch, 363a5086 ubo):
+`Model/Mir2CKnown.knownDeviations` is empty, so the theorems below are the FULL statements about the table
+regenerated from the current source: every row meets the documentation, the section printer terminates
+on every item list, every opcode outside `outsideVocabulary` (UNSPEC) has a case, UBO/UBNO test the
+unsigned flag.  What was wrong before is kept only as statements about explicitly named OLD variants
+(`oldUgeTmpl`, `printSection false`, `oldUboFlag`), never about `Gen`: `old_uge_template_wrong`,
+`old_section_printer_diverges`, `old_section_printer_iff`, `old_ubo_flag_wrong`.
 
-* `∀ a short x y r, cSem wrapv (row of opName a short) x y = some r → agree r (docSem a short x y)`
-  — false for `MIR_UGE` (emits `>`): `uge_template_wrong`; proved for every other row (`template_meets_doc`).
-* `∀ items, printModule terminates` — false: the section loop advances from `item`, not `curr_item`:
-  `section_printer_diverges_today`; proved for the fixed loop (`section_printer_terminates`) and for today's
-  loop under `noAnonFollower` (`section_printer_terminates_partial`, `section_printer_today_iff`).
-* `every opcode MIR_finish_func accepts has a case` — false for LDMOV and SWITCH: `coverage_fails_today`;
-  `coverage` is the statement outside `expectedMissing` (= those two while listed, plus the permanent,
-  documented exclusion `outsideVocabulary` = UNSPEC, a target-specific instruction without a C meaning).
-* `UBO/UBNO after ADDO/SUBO[S] test the unsigned overflow` — false (they test the signed flag):
-  `ubo_after_addo_wrong`; `ubo_after_addo_meets_doc` is the statement for the repaired code.
-* Not a defect of a row but a gap of the approach (#20): without `-fwrapv` the emitted C is *undefined*
-  where MIR wraps — exactly the rows of `wrap_gap_rows` and `neg_gap`. -/
+Still open, and not a defect of a row but of the approach (#20): without `-fwrapv` the emitted C is
+*undefined* where MIR wraps — exactly the rows of `wrap_gap_rows` and `neg_gap`. -/
 namespace MirVerif.Mir2C
 open MirVerif
 
-/-- **Integer templates.**  Every integer arithmetic/logic/shift/compare opcode has exactly one row
-in the regenerated table, and unless the row is a listed deviation, whenever the emitted statement
-`r = (T) a op (T) b;` has a defined value under C11/gcc (with or without `-fwrapv`) — for ALL
-register contents — the instruction is defined there too and the value has the documented bits. -/
+/-- no row of the integer table is a listed deviation any more -/
+theorem no_deviation (a : AOp) (short : Bool) : deviates a short = false := by
+  cases a <;> cases short <;> decide
+
+/-- **Integer templates (full statement).**  Every integer arithmetic/logic/shift/compare opcode has
+exactly one row in the regenerated table, and whenever the emitted statement `r = (T) a op (T) b;`
+has a defined value under C11/gcc (with or without `-fwrapv`) — for ALL register contents — the
+instruction is defined there too and the value has the documented bits. -/
 theorem template_meets_doc (a : AOp) (short : Bool) :
     ∃ tm, (opName a short, tm) ∈ Gen.C20.intRows ∧
       (∀ tm', (opName a short, tm') ∈ Gen.C20.intRows → tm' = tm) ∧
-      (deviates a short = false → ∀ wrapv x y r, cSem wrapv tm x y = some r →
+      (∀ wrapv x y r, cSem wrapv tm x y = some r →
         ∃ r', docSem a short x y = some r' ∧ agree a short r r') := by
   have hc := gen_int_complete
   rw [List.all_eq_true] at hc
@@ -45,7 +45,8 @@ theorem template_meets_doc (a : AOp) (short : Bool) :
   refine ⟨expectedTmpl a short, hm, ?_, ?_⟩
   · intro tm' hk'
     exact nodup_keys_unique _ _ _ _ gen_int_functional hk' hm
-  · intro hd wrapv x y r h
+  · intro wrapv x y r h
+    have hd := no_deviation a short
     simp only [expectedTmpl, hd, Bool.false_eq_true, if_false] at h
     exact canon_meets_doc wrapv a short x y r h
 
@@ -64,17 +65,19 @@ theorem template_rows_named (name : String) (tm : Tmpl) (h : (name, tm) ∈ Gen.
     exact ⟨a, s, rfl, by simpa using this⟩
 
 /-- compiled with `-fwrapv` the emitted statement is undefined exactly where the instruction is -/
-theorem template_domain_wrapv (a : AOp) (short : Bool) (hd : deviates a short = false) (x y : W64) :
+theorem template_domain_wrapv (a : AOp) (short : Bool) (x y : W64) :
     cSem true (expectedTmpl a short) x y = none ↔ docSem a short x y = none := by
+  have hd := no_deviation a short
   simp only [expectedTmpl, hd, Bool.false_eq_true, if_false]
   exact canon_domain a short x y
 
 /-- **Gap #20, exact list.**  Without `-fwrapv` the emitted statement is undefined C although the
 instruction is defined for some operands *exactly* for the rows ADD, ADDS, SUB, SUBS, MUL, MULS
-(signed wrap-around); for every other (non-deviating) row the option changes nothing. -/
-theorem wrap_gap_rows (a : AOp) (short : Bool) (hd : deviates a short = false) :
+(signed wrap-around); for every other row the option changes nothing. -/
+theorem wrap_gap_rows (a : AOp) (short : Bool) :
     (∃ x y, cSem false (expectedTmpl a short) x y = none ∧ (docSem a short x y).isSome = true) ↔
       (a = .add ∨ a = .sub ∨ a = .mul) := by
+  have hd := no_deviation a short
   simp only [expectedTmpl, hd, Bool.false_eq_true, if_false]
   constructor
   · rintro ⟨x, y, hn, hs⟩
@@ -90,21 +93,14 @@ theorem wrap_gap_rows (a : AOp) (short : Bool) (hd : deviates a short = false) :
     · exact ⟨0x4000000040000000, 0x4000000040000000, by decide +kernel, by decide +kernel⟩
     · exact ⟨0x4000000040000000, 0x4000000040000000, by decide +kernel, by decide +kernel⟩
 
-/-- **#16 — `MIR_UGE` is emitted as `>`** (false instance of the full `template_meets_doc`): the row
-of the regenerated table yields 0 for `0 ≥u 0` where the documentation says 1. -/
-theorem uge_template_wrong (h : Deviation.ugeEmitsGt ∈ knownDeviations) :
-    ∃ tm, (opName .uge false, tm) ∈ Gen.C20.intRows ∧
-      ∃ x y r r', cSem true tm x y = some r ∧ docSem .uge false x y = some r' ∧ r ≠ r' := by
-  have hd : deviates .uge false = true := by simp [deviates, h]
-  have hm' : (opName .uge false, expectedTmpl .uge false) ∈ Gen.C20.intRows := by
-    have hc := gen_int_complete
-    rw [List.all_eq_true] at hc
-    have h1 := hc .uge (AOp.mem_all _)
-    rw [List.all_eq_true] at h1
-    simpa using h1 false (by simp)
-  refine ⟨expectedTmpl .uge false, hm', 0, 0, 0, 1, ?_, by decide +kernel, by decide⟩
-  simp only [expectedTmpl, hd, if_true]
-  decide +kernel
+/-- the row `out_insn` had for `MIR_UGE` before fdd8881f (`out_uop3 (ctx, f, ops, ">")`) -/
+def oldUgeTmpl : Tmpl := ⟨.u64, .u64, .cmp .gt⟩
+
+/-- #16 (repaired): the OLD row yields 0 for `0 ≥u 0` where the documentation says 1; the row in the
+regenerated table is covered by `template_meets_doc` -/
+theorem old_uge_template_wrong :
+    ∃ x y r r', cSem true oldUgeTmpl x y = some r ∧ docSem .uge false x y = some r' ∧ r ≠ r' :=
+  ⟨0, 0, 0, 1, by decide +kernel, by decide +kernel, by decide⟩
 
 /-- **Compare-and-branch templates**: exactly one row per opcode, and `if ((T) a op (T) b) goto l`
 jumps exactly when the documented comparison holds. -/
@@ -172,33 +168,33 @@ theorem umulo_meets_doc (x y : W64) :
     builtinU .mul x y = docUMulO x y ∧ builtinU .mul (lo32 x) (lo32 y) = docUMulO (lo32 x) (lo32 y) :=
   ⟨builtinU_mul x y, builtinU_mul _ _⟩
 
-/-- **`UBO`/`UBNO` after `ADDO`/`SUBO[S]` test the signed flag** (false instance): `-1 + 1` carries out
-of 64 bits (unsigned overflow documented) but `__overflow` is 0. -/
-theorem ubo_after_addo_wrong (h : Deviation.uboTestsSignedFlag ∈ knownDeviations) :
-    ∃ x y : W64, uboFlag .add x y ≠ (docAddO x y).2.2 := by
-  have hc : unsignedFlagFromSigned = true := by simp [unsignedFlagFromSigned, h]
-  refine ⟨0xFFFFFFFFFFFFFFFF, 1, ?_⟩
-  simp only [uboFlag, hc, if_true]
-  decide +kernel
+/-- the flag `UBO`/`UBNO` tested before 363a5086: the one `__overflow` variable set by the *signed* builtin -/
+def oldUboFlag {n : Nat} (o : OvOp) (x y : BitVec n) : Bool := (builtinS o x y).2
 
-/-- the same statement for the repaired code (a second, unsigned builtin feeds `UBO`) -/
-theorem ubo_after_addo_meets_doc (h : Deviation.uboTestsSignedFlag ∉ knownDeviations) {n : Nat}
-    (x y : BitVec n) :
+/-- (repaired) the OLD flag is not the documented unsigned overflow: `-1 + 1` carries out of 64 bits -/
+theorem old_ubo_flag_wrong : ∃ x y : W64, oldUboFlag .add x y ≠ (docAddO x y).2.2 :=
+  ⟨0xFFFFFFFFFFFFFFFF, 1, by decide +kernel⟩
+
+/-- **`UBO`/`UBNO` after `ADDO`/`SUBO[S]`** test `__uoverflow`, set from a second, unsigned builtin
+evaluated before the result is stored (text pinned by `source_is_model`): the documented unsigned flag -/
+theorem ubo_after_addo_meets_doc {n : Nat} (x y : BitVec n) :
     uboFlag .add x y = (docAddO x y).2.2 ∧ uboFlag .sub x y = (docSubO x y).2.2 := by
-  have hc : unsignedFlagFromSigned = false := by simp [unsignedFlagFromSigned, h]
+  have hc : unsignedFlagFromSigned = false := by decide
   simp only [uboFlag, hc, Bool.false_eq_true, if_false]
   exact ⟨builtinU_add_flag x y, builtinU_sub_flag x y⟩
 
-/-- **Coverage.**  Every opcode of `MIR_insn_code_t` that `MIR_finish_func` does not reject and that is
-not in `expectedMissing` (the listed deviation LDMOV/SWITCH, and UNSPEC which is outside C20's
-vocabulary) has a `case` in `out_insn`; `gen_uncovered` (bridge) says the uncovered ones are exactly that list. -/
+theorem expectedMissing_eq : expectedMissing = outsideVocabulary := by decide
+
+/-- **Coverage (full statement).**  Every opcode of `MIR_insn_code_t` that `MIR_finish_func` does not
+reject has a `case` in `out_insn`, except `outsideVocabulary` = UNSPEC (target-specific, no C meaning);
+`gen_uncovered` (bridge) says the uncovered ones are exactly that list. -/
 theorem coverage (c : Nat) (hc : c < Gen.C20.allOpcodes.length) (hr : c ∉ Gen.C20.rejectCodes)
-    (hm : Gen.C20.allOpcodes.getD c "?" ∉ expectedMissing) : c ∈ Gen.C20.caseCodes := by
+    (hm : Gen.C20.allOpcodes.getD c "?" ∉ outsideVocabulary) : c ∈ Gen.C20.caseCodes := by
   by_cases hcase : c ∈ Gen.C20.caseCodes
   · exact hcase
   exfalso
   apply hm
-  rw [← gen_uncovered]
+  rw [← expectedMissing_eq, ← gen_uncovered]
   unfold uncoveredOpcodes uncoveredCodes
   apply List.mem_map.mpr
   refine ⟨c, ?_, rfl⟩
@@ -209,36 +205,27 @@ theorem coverage_codes_are_names :
     Gen.C20.caseCodes.map (fun c => Gen.C20.allOpcodes.getD c "?") = coveredOpcodes ∧
       Gen.C20.caseCodes.Nodup := ⟨gen_codes_are_names.1, gen_cases_wellformed.1⟩
 
-/-- **#18**: today the full coverage statement fails — `MIR_SWITCH` (accepted by `MIR_finish_func`) has no case -/
-theorem coverage_fails_today (h : Deviation.missingOpcodes ∈ knownDeviations) :
-    "SWITCH" ∈ uncoveredOpcodes ∧ "LDMOV" ∈ uncoveredOpcodes := by
-  rw [gen_uncovered]
-  simp [expectedMissing, h]
+/-- the two opcodes that had no case before 88b8ee8f are covered now -/
+theorem ldmov_switch_covered : "LDMOV" ∈ coveredOpcodes ∧ "SWITCH" ∈ coveredOpcodes := by decide +kernel
 
-/-- **Termination of the item loop / data-section printer** for the loop that advances from the
-current item (the code after `fixes/C20-section-loop.patch`): for every item list the printer ends
-within `length + 1` steps per pass. -/
-theorem section_printer_terminates (h : loopFixed = true) (items : List Item) :
+theorem loop_is_fixed : loopFixed = true := by decide
+
+/-- **Termination of the item loop / data-section printer (full statement).**  The loop of the current
+source advances from the current item (`gen_section_advance`: the regenerated advance variable is
+`curr_item`): for every item list the printer ends within `length + 1` steps per pass. -/
+theorem section_printer_terminates (items : List Item) :
     (printModule loopFixed items (items.length + 1)).isSome = true := by
-  rw [h]; exact printModule_fixed_some items
+  rw [loop_is_fixed]; exact printModule_fixed_some items
 
-/-- **#17**: the loop of the current source never ends on a named data item followed by an anonymous one -/
-theorem section_printer_diverges_today (h : loopFixed = false) :
-    ∃ items i, ∀ fuel, printSection loopFixed items i fuel = none := by
-  rw [h]
+/-- #17 (repaired): the OLD loop (`fixed = false`, advance from the first item) never ends on a named
+data item followed by an anonymous one -/
+theorem old_section_printer_diverges :
+    ∃ items i, ∀ fuel, printSection false items i fuel = none := by
   refine ⟨[⟨true, .data⟩, ⟨false, .data⟩], 0, fun fuel => ?_⟩
   exact printSection_today_none _ 0 ⟨true, .data⟩ ⟨false, .data⟩ rfl rfl (by decide) rfl rfl (by decide) fuel
 
-/-- partial: whichever variant exists, a section head that is not followed by an anonymous
-data/bss/ref-data item is printed in finitely many steps -/
-theorem section_printer_terminates_partial (items : List Item) (i : Nat)
-    (h : noAnonFollower items i = true) : ∃ fuel, (printSection loopFixed items i fuel).isSome = true := by
-  cases hf : loopFixed
-  · exact ⟨3, printSection_today_some items i h⟩
-  · exact ⟨items.length + 1, printSection_fixed_some items i⟩
-
-/-- today's loop ends on a (named, printable) section head **iff** no anonymous data item follows it -/
-theorem section_printer_today_iff (items : List Item) (i : Nat) (hd : Item)
+/-- the OLD loop ends on a (named, printable) section head **iff** no anonymous data item follows it -/
+theorem old_section_printer_iff (items : List Item) (i : Nat) (hd : Item)
     (hhd : items[i]? = some hd) (hnamed : hd.named = true)
     (hkd : hd.kind ≠ .other ∧ hd.kind ≠ .exprData) :
     (∃ fuel, (printSection false items i fuel).isSome = true) ↔ noAnonFollower items i = true := by
@@ -271,7 +258,6 @@ example : docSem .div true 0xFFFFFFFF_80000000 0x1_00000002 = some 0xFFFFFFFF_C0
 -- a mixed-cast template (what a dropped cast would produce) is given a meaning too, and a different one
 example : cSem true ⟨.i64, .u32, .bin .rsh⟩ 0xFFFFFFFF_80000000 0x1F = some 0xFFFFFFFF_FFFFFFFF := by decide +kernel
 example : cSem true (canonTmpl .ursh true) 0xFFFFFFFF_80000000 0x1F = some 1 := by decide +kernel
-example : deviates .add true = false := by decide
 -- a three-item section on which the fixed printer visits all members in both passes
 example : printSection true [⟨true, .data⟩, ⟨false, .bss⟩, ⟨false, .refData⟩, ⟨true, .data⟩] 0 5
     = some [[0, 1, 2], [0, 1, 2]] := by decide
